@@ -1450,9 +1450,71 @@ func runApp(id string, viaRequest bool, st *hx.Stats) string {
 				fail("SetName on the early %s route %q panicked", sh.where, sh.pattern)
 			}
 		}
+		// registration ORDER and overlapping shapes (seeded round 8): an explicit HEAD route before the GET route of the same
+		// path; a version route and, later, app.Any for the same path; the root route next to a static tree served from the
+		// root prefix; a named WhereInt route reversed with an integer beyond 63 bits
+		type extraT struct{ method, path, ver, want string }
+		var extras []extraT
+		staticDir, _ := os.MkdirTemp("", "c12-static")
+		defer os.RemoveAll(staticDir)
+		_ = os.WriteFile(staticDir+"/index.html", []byte("index"), 0o644)
+		_ = os.WriteFile(staticDir+"/f.txt", []byte("file"), 0o644)
+		for n, f := range map[string]func(){
+			"HEAD before GET":          func() { a.HEAD("/hg", h("x-head")); a.GET("/hg", h("x-get")) },
+			"GET before HEAD":          func() { a.GET("/gh", h("x-get2")); a.HEAD("/gh", h("x-head2")) },
+			"version route before Any": func() { a.Version("v2").GET("/status", h("x-v2")); a.Any("/status", h("x-any")) },
+			"group HEAD before GET":    func() { g.HEAD("/hg", h("x-ghead")); g.GET("/hg", h("x-gget")) },
+			"named WhereInt route":     func() { a.GET("/orders/:id", h("x-order")).WhereInt("id").SetName("Orders.get") },
+		} {
+			if panics(f) {
+				fail("early registration (%s) panicked", n)
+			}
+		}
+		extras = append(extras, extraT{"HEAD", "/hg", "", "x-head"}, extraT{"GET", "/hg", "", "x-get"}, extraT{"HEAD", "/gh", "", "x-head2"},
+			extraT{"GET", "/gh", "", "x-get2"}, extraT{"GET", "/status", "", "x-any"}, extraT{"GET", "/status", "v2", "x-any"}, // (an unversioned route always wins: C13)
+			extraT{"POST", "/status", "", "x-any"}, extraT{"HEAD", "/g/hg", "", "x-ghead"}, extraT{"GET", "/g/hg", "", "x-gget"},
+			extraT{"GET", "/orders/18446744073709551615", "", "x-order"})
 		for _, n := range names {
 			if panics(hooks[n]) {
 				fail("%s before the freeze panicked", n)
+			}
+		}
+		checkExtras := func(when string) {
+			for _, e := range extras {
+				req := httptest.NewRequest(e.method, e.path, nil)
+				if e.ver != "" {
+					req.Header.Set("X-API-Version", e.ver)
+				}
+				rec := httptest.NewRecorder()
+				a.Router().ServeHTTP(rec, req)
+				if rec.Code != http.StatusOK || rec.Header().Get("X-Route") != e.want {
+					fail("%s: %s %s (version %q) answered %d by %q, want 200 by %s", when, e.method, e.path, e.ver, rec.Code, rec.Header().Get("X-Route"), e.want)
+				}
+			}
+			// a second, small app: the root route registered before a static tree served from the root prefix (the tree's
+			// catch-all would shadow the version routes of the main app)
+			if a2, err := app.New(app.WithServiceName("verif-c12s"), app.WithServiceVersion("v0.0.0")); err != nil {
+				fail("app.New (static): %v", err)
+			} else {
+				if panics(func() { a2.GET("/", h("x-root")); a2.GET("/about", h("x-about")); a2.Static("/", staticDir) }) {
+					fail("%s: root route + root static tree panicked", when)
+				} else {
+					for _, e := range []extraT{{"GET", "/", "", "x-root"}, {"GET", "/about", "", "x-about"}, {"GET", "/f.txt", "", ""}} {
+						rec := httptest.NewRecorder()
+						a2.Router().ServeHTTP(rec, httptest.NewRequest(e.method, e.path, nil))
+						if rec.Code != http.StatusOK || rec.Header().Get("X-Route") != e.want {
+							fail("%s: root static tree: GET %s answered %d by %q, want 200 by %q", when, e.path, rec.Code, rec.Header().Get("X-Route"), e.want)
+						}
+					}
+				}
+			}
+			for _, v := range []string{"7", "18446744073709551615", "00012"} {
+				u, err := a.URLFor("Orders.get", map[string]string{"id": v}, nil)
+				if err != nil {
+					fail("%s: app.URLFor(Orders.get, id=%s): %v (GET /orders/%s is routed)", when, v, err, v)
+				} else if c, who := get(u); c != http.StatusOK || who != "x-order" {
+					fail("%s: app.URLFor(Orders.get, id=%s) = %q routes back with %d to %q", when, v, u, c, who)
+				}
 			}
 		}
 		if viaRequest {
@@ -1463,6 +1525,7 @@ func runApp(id string, viaRequest bool, st *hx.Stats) string {
 			a.Router().Freeze()
 		}
 		specBefore := spec()
+		checkExtras("after the freeze")
 		for i, sh := range shapes {
 			id := "e" + strconv.Itoa(i)
 			if c, who := get(reqPath(sh)); c != http.StatusOK || who != id {
